@@ -5,6 +5,7 @@ import (
 	"io"
 	"math/rand"
 	"regexp"
+	"sort"
 	"strconv"
 	"strings"
 	"sync"
@@ -23,6 +24,7 @@ import (
 // critical sections and that transcript, item for item.
 
 var (
+	reLine      = regexp.MustCompile(`^L(\d+)\n$`)
 	reChunk     = regexp.MustCompile(`^c(\d+)\.(\d+);$`)
 	reAddr      = regexp.MustCompile(`^\[([^\]]*)\] (.*)$`)
 	reConnected = regexp.MustCompile(`^(Input|Output) connected: ID (".*")$`)
@@ -102,7 +104,11 @@ func classify(cl opshell.CLine, specOf func(halfID int) int, addrHalf func(addr,
 	return it, nil
 }
 
-func fullTraceCfg(natt, nkeys, maxChunks int, partial bool) string {
+func fullTraceCfg(natt, nkeys, maxChunks int, partial, lines bool) string {
+	maxLines := 0
+	if lines {
+		maxLines = 3
+	}
 	atts := make([]string, natt)
 	for i := range atts {
 		atts[i] = fmt.Sprint(i + 1)
@@ -120,15 +126,22 @@ CONSTANTS
   PerReqKey = TRUE
   EmitEdges = FALSE
   MaxChunks = %d
-  MaxLines = 0
+  MaxLines = %d
   Partial = %s
-INVARIANTS NotAllConsumed OneShell Consistent ExactlyOneGone OnlyAttachedShown RefusedGetNothing ChunksInOrder ChunksBeforeClosed GenMonotone GoneClosesGeneration ReadyInsideGeneration OneGonePerGeneration
+  CheckLines = %s
+INVARIANTS NotAllConsumed OneShell Consistent ExactlyOneGone OnlyAttachedShown RefusedGetNothing ChunksInOrder ChunksBeforeClosed GenMonotone GoneClosesGeneration ReadyInsideGeneration OneGonePerGeneration LinesGapFree LinesInOrder LinesOnlyToAttached
 CHECK_DEADLOCK FALSE
-`, strings.Join(atts, ","), strings.Join(ks, ","), natt, maxChunks, map[bool]string{true: "TRUE", false: "FALSE"}[partial])
+`, strings.Join(atts, ","), strings.Join(ks, ","), natt, maxChunks, maxLines, map[bool]string{true: "TRUE", false: "FALSE"}[partial], map[bool]string{true: "TRUE", false: "FALSE"}[lines])
+}
+
+type fullLine struct {
+	N int `json:"n"`
+	A int `json:"a"`
 }
 
 type fullExec struct {
 	evs   []brk.TraceEv // Items event first
+	lines []fullLine
 	items []fullItem
 	raw   []string
 	seed  int64
@@ -193,6 +206,17 @@ func fullExecution(seed int64, sameHost bool) (*fullExec, int, int, error) {
 			}
 		}()
 	}
+	// the operator enters up to three lines at some time
+	nlines := rng.Intn(4)
+	lpause := time.Duration(rng.Intn(400)) * time.Microsecond
+	hw.Add(1)
+	go func() {
+		defer hw.Done()
+		for i := 1; i <= nlines; i++ {
+			time.Sleep(lpause)
+			w.Ich <- fmt.Sprintf("L%d", i)
+		}
+	}()
 	for q := 0; q < nreq; q++ {
 		switch rng.Intn(3) {
 		case 0:
@@ -265,7 +289,24 @@ func fullExecution(seed int64, sameHost bool) (*fullExec, int, int, error) {
 		return 0
 	}
 	keyName := func(k string) (string, bool) { v, ok := keyNames[k]; return v, ok }
-	fe := &fullExec{seed: seed}
+	fe := &fullExec{seed: seed, items: []fullItem{}, lines: []fullLine{}}
+	for _, h := range halves {
+		if h.Dir != "in" {
+			continue
+		}
+		for _, op := range h.W.Snapshot() {
+			if op.Kind != "write" {
+				continue
+			}
+			m := reLine.FindStringSubmatch(op.Data)
+			if m == nil {
+				return nil, 0, 0, fmt.Errorf("input stream %d was written %q, which is no line of the driver", h.ID, op.Data)
+			}
+			n, _ := strconv.Atoi(m[1])
+			fe.lines = append(fe.lines, fullLine{N: n, A: specOf(h.ID)})
+		}
+	}
+	sort.SliceStable(fe.lines, func(i, j int) bool { return fe.lines[i].N < fe.lines[j].N })
 	for _, cl := range got {
 		it, err := classify(cl, specOf, addrHalf, keyName)
 		if err != nil {
@@ -274,7 +315,7 @@ func fullExecution(seed int64, sameHost bool) (*fullExec, int, int, error) {
 		fe.items = append(fe.items, it)
 		fe.raw = append(fe.raw, cl.Line)
 	}
-	fe.evs = append(fe.evs, brk.TraceEv{"e": "Items", "items": fe.items})
+	fe.evs = append(fe.evs, brk.TraceEv{"e": "Items", "items": fe.items, "lines": fe.lines})
 	for _, e := range evs {
 		if e["e"] == "ProxyEnd" { // placed by TLC: the proxy returns, and says so, outside the lock
 			continue
@@ -286,7 +327,7 @@ func fullExecution(seed int64, sameHost bool) (*fullExec, int, int, error) {
 
 // withItems returns the trace with only the first m items of its transcript.
 func (fe *fullExec) withItems(m int) []brk.TraceEv {
-	out := append([]brk.TraceEv{{"e": "Items", "items": fe.items[:m]}}, fe.evs[1:]...)
+	out := append([]brk.TraceEv{{"e": "Items", "items": fe.items[:m], "lines": fe.lines}}, fe.evs[1:]...)
 	return out
 }
 
@@ -352,7 +393,7 @@ func transcriptLeg(r *ev.Run, prop string, n int) {
 	}
 	r.Add("transcript_executions", len(execs))
 	r.Add("transcript_items", items)
-	cfg := fullTraceCfg(natt, nkeys, 3, false)
+	cfg := fullTraceCfg(natt, nkeys, 3, false, true)
 	ok, tres, err := traceAccepted("BrokerFullTrace", cfg, traces)
 	if err != nil {
 		r.Inconclusive("transcript validation: %v\n%s", err, tail(tres))
@@ -361,6 +402,7 @@ func transcriptLeg(r *ev.Run, prop string, n int) {
 	r.Add("trace_validation_states", tres.Distinct)
 	r.Add("traces_validated_against_impl", len(traces))
 	if ok {
+		transcriptSelfTest(r, execs, cfg)
 		return
 	}
 	idx := make([]int, len(traces))
@@ -372,9 +414,21 @@ func transcriptLeg(r *ev.Run, prop string, n int) {
 		r.Inconclusive("transcript validation, bisecting: %v", err)
 		return
 	}
-	pcfg := fullTraceCfg(natt, nkeys, 3, true)
+	pcfg := fullTraceCfg(natt, nkeys, 3, true, false)
+	nolines := fullTraceCfg(natt, nkeys, 3, false, false)
 	for _, k := range rej {
 		fe := execs[k]
+		// explained but for the input side?
+		if ok, _, err := traceAccepted("BrokerFullTrace", nolines, [][]brk.TraceEv{fe.evs}); err == nil && ok {
+			d := map[string]any{"kind": "BrokerFull-transcript", "seed": fe.seed, "trace": fe.evs, "transcript": fe.raw, "lines_written": fe.lines,
+				"what": "no behaviour of the composition writes the entered lines to these streams (line n -> stream a) while sending this transcript"}
+			if prop == "C02" {
+				r.Violation("transcript:lines", d)
+			} else {
+				fmt.Printf("note: transcript refused for its input side (seed %d), attributed to C02\n", fe.seed)
+			}
+			continue
+		}
 		// the first item of the transcript no behaviour explains
 		accepts := func(m int) (bool, string, error) {
 			ok, res, err := traceAccepted("BrokerFullTrace", pcfg, [][]brk.TraceEv{fe.withItems(m)})
@@ -424,4 +478,111 @@ func transcriptLeg(r *ev.Run, prop string, n int) {
 			fmt.Printf("note: transcript refused at item %d (%s), attributed to %s\n", at, aspect, p)
 		}
 	}
+}
+
+// transcriptSelfTest shows that the acceptance just obtained is not vacuous: transcripts of
+// accepted executions are damaged the way a broken broker would damage them (a chunk after its
+// stream's closing notice, a second "gone", the ready notice missing, a chunk of a refused
+// stream) and TLC must refuse every damaged one.  An accepted damaged transcript makes the
+// check inconclusive (the oracle cannot be relied on); it is never a verdict on the code.
+func transcriptSelfTest(r *ev.Run, execs []*fullExec, cfg string) {
+	type mut struct {
+		name string
+		f    func(items []fullItem) []fullItem
+	}
+	cp := func(items []fullItem) []fullItem { return append([]fullItem(nil), items...) }
+	muts := []mut{
+		{"chunk-after-its-closing-notice", func(items []fullItem) []fullItem {
+			for i, it := range items {
+				if it.T != "chunk" {
+					continue
+				}
+				for j := i + 1; j < len(items); j++ {
+					if items[j].T == "closed" && items[j].D == "out" && items[j].A == it.A && it.A != 0 {
+						out := cp(items)
+						c := out[i]
+						copy(out[i:j], out[i+1:j+1])
+						out[j] = c
+						return out
+					}
+				}
+			}
+			return nil
+		}},
+		{"second-gone", func(items []fullItem) []fullItem {
+			for i, it := range items {
+				if it.T == "gone" {
+					out := cp(items[:i+1])
+					out = append(out, it)
+					return append(out, items[i+1:]...)
+				}
+			}
+			return nil
+		}},
+		{"ready-missing", func(items []fullItem) []fullItem {
+			for i, it := range items {
+				if it.T == "ready" {
+					out := cp(items[:i])
+					return append(out, items[i+1:]...)
+				}
+			}
+			return nil
+		}},
+		{"output-of-a-refused-stream", func(items []fullItem) []fullItem {
+			for i, it := range items {
+				if it.T == "refused" && it.D == "out" && it.A != 0 {
+					out := cp(items[:i+1])
+					out = append(out, fullItem{T: "chunk", A: it.A, D: "out", K: "?", N: 1})
+					return append(out, items[i+1:]...)
+				}
+			}
+			return nil
+		}},
+		{"gone-before-closing-notice", func(items []fullItem) []fullItem {
+			for i := 0; i+1 < len(items); i++ {
+				if items[i].T == "closed" && items[i+1].T == "gone" {
+					out := cp(items)
+					out[i], out[i+1] = out[i+1], out[i]
+					return out
+				}
+			}
+			return nil
+		}},
+	}
+	done := 0
+	// the input side: a line written to a refused stream, a line written twice
+	for _, fe := range execs {
+		if len(fe.lines) == 0 {
+			continue
+		}
+		dup := append(append([]fullLine(nil), fe.lines...), fullLine{N: fe.lines[len(fe.lines)-1].N, A: fe.lines[len(fe.lines)-1].A})
+		t := append([]brk.TraceEv{{"e": "Items", "items": fe.items, "lines": dup}}, fe.evs[1:]...)
+		if ok, res, err := traceAccepted("BrokerFullTrace", cfg, [][]brk.TraceEv{t}); err != nil {
+			r.Inconclusive("transcript self-test line-written-twice: %v\n%s", err, tail(res))
+		} else if ok {
+			r.Inconclusive("transcript self-test: TLC accepts an execution in which a line was written twice (seed %d)", fe.seed)
+		} else {
+			done++
+		}
+		break
+	}
+	for _, m := range muts {
+		for _, fe := range execs {
+			bad := m.f(fe.items)
+			if bad == nil {
+				continue
+			}
+			t := append([]brk.TraceEv{{"e": "Items", "items": bad, "lines": fe.lines}}, fe.evs[1:]...)
+			ok, res, err := traceAccepted("BrokerFullTrace", cfg, [][]brk.TraceEv{t})
+			if err != nil {
+				r.Inconclusive("transcript self-test %s: %v\n%s", m.name, err, tail(res))
+			} else if ok {
+				r.Inconclusive("transcript self-test: TLC accepts a transcript damaged by %q (seed %d): the transcript oracle is too weak to be relied on", m.name, fe.seed)
+			} else {
+				done++
+			}
+			break
+		}
+	}
+	r.Set("transcript_selftest_damaged_transcripts_refused", done)
 }
